@@ -4,10 +4,15 @@ go 1.24.5
 
 toolchain go1.24.12
 
-require github.com/go-i2p/common v0.0.0
+require (
+	github.com/go-i2p/common v0.0.0
+	github.com/go-i2p/crypto v0.1.4-0.20260218221204-a8834457f3f1
+)
 
 require (
+	filippo.io/edwards25519 v1.1.0 // indirect
 	github.com/cespare/xxhash/v2 v2.3.0 // indirect
+	github.com/go-i2p/elgamal v0.0.2 // indirect
 	github.com/go-i2p/logger v0.1.2 // indirect
 	github.com/oklog/ulid/v2 v2.1.1 // indirect
 	github.com/samber/lo v1.52.0 // indirect
@@ -15,6 +20,8 @@ require (
 	github.com/sirupsen/logrus v1.9.4 // indirect
 	go.opentelemetry.io/otel v1.39.0 // indirect
 	go.opentelemetry.io/otel/trace v1.39.0 // indirect
+	go.step.sm/crypto v0.76.0 // indirect
+	golang.org/x/crypto v0.47.0 // indirect
 	golang.org/x/sys v0.40.0 // indirect
 	golang.org/x/text v0.33.0 // indirect
 )
